@@ -1,4 +1,6 @@
 import PikaVerif.Lemmas.CV3
+import PikaVerif.Lemmas.CV4
+import PikaVerif.Lemmas.CV5
 /-!
 # C07 — Condition variables never lose a notification
 
@@ -6,8 +8,8 @@ Property theorems about the model `PikaVerif.CV` (`pika::condition_variable` /
 `condition_variable_any` over `detail::condition_variable`, an abstract user lock and the
 execution agent).  Every theorem quantifies over *all* accepted event logs of the model,
 i.e. over every number of threads, every program of lock / unlock / set / notify_one /
-notify_all / wait / wait(pred) / wait_for / wait_for(pred) operations and every
-interleaving (including deadline expiry as a schedule event).  `Reachable s` = `s` is the
+notify_all / wait / wait(pred) / wait_for / wait_for(pred) / wait(stop_token, pred) /
+request_stop operations and every interleaving (including deadline expiry as a schedule event).  `Reachable s` = `s` is the
 state after some accepted log from `init n flag`.
 
 History fields used in the statements (all updated by `step`, see `Model/CV.lean`):
@@ -25,6 +27,14 @@ def Reachable (s : St) : Prop := ∃ n f log, runLog step (init n f) log = some 
 theorem Reachable.inv {s : St} (h : Reachable s) : Inv s ∧ Inv2 s := by
   obtain ⟨n, f, log, hl⟩ := h
   exact inv2_of_accepted hl
+
+theorem Reachable.inv3 {s : St} (h : Reachable s) : Inv3 s := by
+  obtain ⟨n, f, log, hl⟩ := h
+  exact (inv3_of_accepted hl).2.2
+
+theorem Reachable.step {s s' : St} {e : Ev} (h : Reachable s) (hs : step s e = some s') : Reachable s' := by
+  obtain ⟨n, f, log, hl⟩ := h
+  exact ⟨n, f, log ++ [e], by rw [runLog_append, hl]; simp [runLog, hs]⟩
 
 /-! ## Atomic release -/
 
@@ -146,18 +156,42 @@ theorem C07_notify_all_wakes_all (s s' : St) (hr : Reachable s) (u : Nat)
       rw [hq] at this
       simp at this
 
+/-- The callback of a stop-token wait is a `notify_all`: when it leaves its critical section
+    no thread is waiting any more (same statement as `C07_notify_all_wakes_all`, for the
+    callback run by `request_stop` (`k = false`) or by the registering thread (`k = true`)). -/
+theorem C07_stop_callback_wakes_all (s s' : St) (hr : Reachable s) (u : Nat) (k : Bool)
+    (hpc : s.pc u = .cAll k) (h : step s (.slRel u) = some s') : ∀ w, s.waiting w = false := by
+  obtain ⟨hi, _⟩ := hr.inv
+  simp only [step] at h
+  split at h
+  case isFalse => simp at h
+  rename_i hg
+  rw [hpc] at h
+  simp only at h
+  split at h
+  case isFalse => simp at h
+  rename_i hq
+  intro w
+  cases hw : s.waiting w with
+  | false => rfl
+  | true =>
+    by_cases hwu : w = u
+    · subst hwu
+      have := hi.waitingIff w
+      rw [hw, hpc] at this
+      simp [waitExp] at this
+    · have := C07_atomic_release s hr u w hg.2 hwu hw
+      rw [hq] at this
+      simp at this
+
 /-- Each iteration of `notify_all` pops a thread that was waiting and wakes it. -/
 theorem C07_notify_all_pops_waiter (s s' : St) (hr : Reachable s) (u z g : Nat) (d : Bool)
     (h : step s (.popAll u z g d) = some s') :
     s.waiting g = true ∧ s'.waiting g = false ∧ s'.poppedOp g = true ∧
     (s'.tok g = s.tok g + 1 ∨ s.pc g = .slp false) := by
   obtain ⟨hi, _⟩ := hr.inv
-  simp only [step] at h
-  split at h
-  case isFalse => simp at h
-  split at h
-  case h_2 => simp at h
-  obtain ⟨⟨rest, hq, _⟩, hw, hp, _, ⟨p', hp'⟩, htok, _⟩ := popCore_effect s s' u z g d .nAll h
+  obtain ⟨pcT, h⟩ := popAll_core h
+  obtain ⟨⟨rest, hq, _⟩, hw, hp, _, ⟨p', hp'⟩, htok, _⟩ := popCore_effect s s' u z g d pcT h
   have hin : inQ (s.pc g) = true := (hi.qIff g).1 (by rw [hq]; simp)
   have hwg : s.waiting g = true := by
     rw [hi.waitingIff g]
@@ -168,7 +202,8 @@ theorem C07_notify_all_pops_waiter (s s' : St) (hr : Reachable s) (u z g : Nat) 
   · exact Or.inr h.2.1
 
 /-- **notify_all wakes every waiter (trace form).**  Take any reachable state in which
-    `notify_all` by `u` starts its critical work (`cv.all`), any thread `w` that is waiting
+    `notify_all` by `u` — the public call or (follow-up C07s) the stop callback of a stop-token
+    wait — starts its critical work (`cv.all`), any thread `w` that is waiting
     at that moment (released the user lock in a wait, not yet woken), and any continuation
     of the execution up to the `sl.rel` with which this `notify_all` leaves its critical
     section: the continuation contains the event "u pops and resumes w". -/
@@ -181,19 +216,19 @@ theorem C07_notify_all_wakes_each (s s1 s2 s3 : St) (hr : Reachable s) (u w z : 
   have hr1 : runLog step (init n f) (l0 ++ [.cvAll u z]) = some s1 := by
     rw [runLog_append, hl0]; simp [runLog, h1]
   -- facts at s1
-  have hs1 : s1.waiting w = true ∧ s1.lock = some u ∧ s1.pc u = .nAll := by
+  have hs1 : s1.waiting w = true ∧ s1.lock = some u ∧ allPc (s1.pc u) = true := by
     simp only [step] at h1
     split at h1
     case isFalse => simp at h1
     rename_i hg
-    split at h1
-    case h_2 => simp at h1
-    simp only [Option.some.injEq] at h1
-    subst h1
-    exact ⟨hw, hg.2.1, by simp [upd]⟩
+    (repeat' split at h1) <;> first | (simp at h1; done) | skip
+    all_goals
+      simp only [Option.some.injEq] at h1
+      subst h1
+      exact ⟨hw, hg.2.1, by simp [upd, allPc]⟩
   -- induction along the continuation
   have main : ∀ (log : List Ev) (l1 : List Ev) (sa : St), runLog step (init n f) l1 = some sa →
-      sa.waiting w = true ∧ sa.lock = some u ∧ sa.pc u = .nAll →
+      sa.waiting w = true ∧ sa.lock = some u ∧ allPc (sa.pc u) = true →
       runLog step sa log = some s2 → (∀ e ∈ log, e ≠ .slRel u) →
       ∃ z' d, Ev.popAll u z' w d ∈ log := by
     intro log
@@ -202,9 +237,17 @@ theorem C07_notify_all_wakes_each (s s1 s2 s3 : St) (hr : Reachable s) (u w z : 
       intro l1 sa hra hsa hrun _
       simp at hrun
       subst hrun
-      have := C07_notify_all_wakes_all sa s3 (show Reachable sa from ⟨n, f, l1, hra⟩) u hsa.2.2 h3 w
-      rw [hsa.1] at this
-      simp at this
+      have hra' : Reachable sa := ⟨n, f, l1, hra⟩
+      have hall := hsa.2.2
+      cases hp : sa.pc u <;> simp [hp, allPc] at hall
+      case nAll =>
+        have := C07_notify_all_wakes_all sa s3 hra' u hp h3 w
+        rw [hsa.1] at this
+        simp at this
+      case cAll k =>
+        have := C07_stop_callback_wakes_all sa s3 hra' u k hp h3 w
+        rw [hsa.1] at this
+        simp at this
     | cons e es ih =>
       intro l1 sa hra hsa hrun hno
       simp only [runLog] at hrun
@@ -245,6 +288,7 @@ def BlockedOnUserLock (s : St) (t : Nat) : Prop :=
 theorem C07_stuck_only_when_blocked (s : St) (hr : Reachable s) (hs : Stuck s) :
     ∀ t, t < s.n → s.pc t = .idle ∨ s.pc t = .fin ∨ Parked s t ∨ BlockedOnUserLock s t := by
   obtain ⟨hi, hi2⟩ := hr.inv
+  have hi3 := hr.inv3
   have en : ∀ e, (∀ t o, e ≠ .inv t o) → (∀ t, e ≠ .done t) → step s e ≠ none → False :=
     fun e h1 h2 h3 => h3 (hs e h1 h2)
   -- the internal lock is free in a stuck state
@@ -265,7 +309,15 @@ theorem C07_stuck_only_when_blocked (s : St) (hr : Reachable s) (hs : Stuck s) :
       case enq tm => exact en (.slRel r) (by simp) (by simp) (by simp [step, hrn, hl, hp])
       case relk tm p =>
         exact en (.cvWoke r (!p) tm) (by simp) (by simp) (by cases p <;> simp [step, hrn, hl, hp])
-      case post b => exact en (.slRel r) (by simp) (by simp) (by simp [step, hrn, hl, hp])
+      case post b =>
+        cases hst : (isStop (s.curOp r) && isTimed (s.curOp r)) with
+        | false => exact en (.slRel r) (by simp) (by simp) (by simp [step, hrn, hl, hp, hst])
+        | true =>
+          have hc : s.curOp r = .swait true := by
+            cases hc : s.curOp r <;> simp [hc, isStop, isTimed] at hst ⊢
+            exact hst
+          exact en (.stop2 r (b || s.stopReq)) (by simp) (by simp) (by simp [step, hrn, hl, hp, hc])
+      case postS b => exact en (.slRel r) (by simp) (by simp) (by simp [step, hrn, hl, hp])
       case nDone => exact en (.slRel r) (by simp) (by simp) (by simp [step, hrn, hl, hp])
       case nLocked =>
         rw [hp] at hop
@@ -306,6 +358,65 @@ theorem C07_stuck_only_when_blocked (s : St) (hr : Reachable s) (hs : Stuck s) :
           obtain ⟨p', hp'⟩ := hsp
           exact en (.popAll r rest.length g (decide (s.pc g = .slp false))) (by simp) (by simp)
             (by simp [step, hrn, hl, hp, popCore, hq, hp'])
+      case sChk1 => exact en (.stop1 r s.stopReq) (by simp) (by simp) (by simp [step, hrn, hl, hp])
+      case sStopped => exact en (.slRel r) (by simp) (by simp) (by simp [step, hrn, hl, hp])
+      case cLocked k => exact en (.cvAll r s.queue.length) (by simp) (by simp) (by simp [step, hrn, hl, hp])
+      case cAll k =>
+        cases hq : s.queue with
+        | nil => exact en (.slRel r) (by simp) (by simp) (by simp [step, hrn, hl, hp, hq])
+        | cons g rest =>
+          have hgq : g ∈ s.queue := by rw [hq]; simp
+          have hginQ := (hi.qIff g).1 hgq
+          have hgr : g ≠ r := by intro he; rw [he, hp] at hginQ; simp [inQ] at hginQ
+          have hnh : holds (s.pc g) = false := by
+            cases hhg : holds (s.pc g) with
+            | false => rfl
+            | true => have := hi.lockHolder g hhg; rw [hl] at this; simp at this; exact absurd this.symm hgr
+          have hsp : ∃ p', setPopped (s.pc g) = some p' := by
+            cases hpg : s.pc g <;> simp [hpg, inQ, holds] at hginQ hnh <;> simp [setPopped, hginQ]
+          obtain ⟨p', hp'⟩ := hsp
+          exact en (.popAll r rest.length g (decide (s.pc g = .slp false))) (by simp) (by simp)
+            (by simp [step, hrn, hl, hp, popCore, hq, hp'])
+  -- the lock bit of the stop state is free in a stuck state
+  have hsl : s.sLock = none := by
+    cases hsl : s.sLock with
+    | none => rfl
+    | some r =>
+      exfalso
+      obtain ⟨hh, hrn⟩ := hi3.sConv r hsl
+      cases hp : s.pc r <;> simp [hp, holdsS] at hh
+      case sRegLk =>
+        exact en (.stPush r (decide (s.cbs ≠ []))) (by simp) (by simp) (by simp [step, hrn, hsl, hp])
+      case rsLocked =>
+        cases hc : s.cbs with
+        | nil => exact en (.stRsDone r) (by simp) (by simp) (by simp [step, hrn, hsl, hp, hc])
+        | cons c rest =>
+          exact en (.stDeq r c (decide (rest ≠ []))) (by simp) (by simp) (by simp [step, hrn, hsl, hp, hc])
+      case sRm res =>
+        exact en (.stUnlink r (decide (r ∈ s.cbs))) (by simp) (by simp)
+          (by cases hm : decide (r ∈ s.cbs) <;> simp [step, hrn, hsl, hp, hm])
+  -- request_stop has no callback in its hand in a stuck state
+  have hcur : s.cur = none := by
+    cases hc : s.cur with
+    | none => rfl
+    | some c =>
+      exfalso
+      have hh := hi3.curConv c hc
+      have hrn : s.reqT < s.n := by
+        apply Classical.byContradiction
+        intro hge
+        have := hi.outside s.reqT (by omega)
+        rw [this] at hh; simp [curHeldPc] at hh
+      cases hp : s.pc s.reqT <;> simp [hp, curHeldPc] at hh
+      case cWant k =>
+        exact en (.slAcq s.reqT) (by simp) (by simp) (by simp [step, hrn, hl, hp])
+      case cLocked k =>
+        have := hi.lockHolder s.reqT (by simp [hp, holds]); rw [hl] at this; simp at this
+      case cAll k =>
+        have := hi.lockHolder s.reqT (by simp [hp, holds]); rw [hl] at this; simp at this
+      case cRet k =>
+        subst hh
+        exact en (.stFin s.reqT c false) (by simp) (by simp) (by simp [step, hrn, hc, hp])
   have key : ∀ t, t < s.n → s.pc t = .idle ∨ s.pc t = .fin ∨ Parked s t ∨
       ((s.pc t = .wantU ∨ ∃ b, s.pc t = .relockU b) ∧ s.ulock ≠ none) := by
     intro t htn
@@ -345,6 +456,36 @@ theorem C07_stuck_only_when_blocked (s : St) (hr : Reachable s) (hs : Stuck s) :
     case slp p => exact (en (.timeout t) (by simp) (by simp) (by simp [step, htn, hp])).elim
     case retn r => exact (en (.ret t r) (by simp) (by simp) (by simp [step, htn, hp])).elim
     case nRet => exact (en (.ret t 0) (by simp) (by simp) (by simp [step, htn, hp])).elim
+    case sChk0 => exact (en (.stop0 t s.stopReq) (by simp) (by simp) (by simp [step, htn, hp])).elim
+    case sReg =>
+      cases hsr : s.stopReq with
+      | true => exact (en (.stSeen t) (by simp) (by simp) (by simp [step, htn, hp, hsr])).elim
+      | false => exact (en (.stAcq t 2) (by simp) (by simp) (by simp [step, htn, hp, hsr, hsl])).elim
+    case sRegLk => have := hi3.sHolder t (by simp [hp, holdsS]); rw [hsl] at this; simp at this
+    case rsLocked => have := hi3.sHolder t (by simp [hp, holdsS]); rw [hsl] at this; simp at this
+    case sRm res => have := hi3.sHolder t (by simp [hp, holdsS]); rw [hsl] at this; simp at this
+    case cWant k => exact (en (.slAcq t) (by simp) (by simp) (by simp [step, htn, hl, hp])).elim
+    case cRet k =>
+      cases k with
+      | true => exact (en (.stInFin t) (by simp) (by simp) (by simp [step, htn, hp])).elim
+      | false => exact absurd hcur (hi3.curHeld t (by simp [hp, curHeldPc]))
+    case sDtor res => exact (en (.stAcq t 0) (by simp) (by simp) (by simp [step, htn, hp, hsl])).elim
+    case sRmChk res => exact (en (.stSelf t false) (by simp) (by simp) (by simp [step, htn, hp])).elim
+    case sRmWait res =>
+      cases hf : s.cbFin t with
+      | true => exact (en (.stWaited t) (by simp) (by simp) (by simp [step, htn, hp, hf])).elim
+      | false =>
+        have hk := hi3.dtorKept t (by simp [hp, dtorPc])
+        rcases hi3.regOk t hk with h | h | h
+        · exact absurd h (hi3.rmOk t (by simp [hp, rmPc]))
+        · rw [hcur] at h; simp at h
+        · rw [hf] at h; simp at h
+    case rsWant =>
+      cases hsr : s.stopReq with
+      | true => exact (en (.ret t 0) (by simp) (by simp) (by simp [step, htn, hp, hsr])).elim
+      | false => exact (en (.stAcq t 1) (by simp) (by simp) (by simp [step, htn, hp, hsr, hsl])).elim
+    case rsRelock => exact (en (.stAcq t 0) (by simp) (by simp) (by simp [step, htn, hp, hsl])).elim
+    case rsRet b => exact (en (.ret t (b2n b)) (by simp) (by simp) (by simp [step, htn, hp])).elim
   intro t htn
   rcases key t htn with h | h | h | ⟨hpc, hu⟩
   · exact Or.inl h
@@ -391,8 +532,10 @@ theorem C07_notified_waiter_has_token (s : St) (hr : Reachable s) (t : Nat)
 
 /-! ## Results -/
 
+/-- (follow-up C07s: the last disjunct is new — `ret` of `request_stop`, an operation that did
+    not exist in the model before; the first two are the previous statement.) -/
 theorem ret_pc {s s' : St} {t r : Nat} (h : step s (.ret t r) = some s') :
-    s.pc t = .retn r ∨ (s.pc t = .nRet ∧ r = 0) := by
+    s.pc t = .retn r ∨ (s.pc t = .nRet ∧ r = 0) ∨ ((∃ b, s.pc t = .rsRet b) ∨ s.pc t = .rsWant) := by
   simp only [step] at h
   split at h
   · split at h
@@ -402,18 +545,26 @@ theorem ret_pc {s s' : St} {t r : Nat} (h : step s (.ret t r) = some s') :
       · simp at h
     · rename_i hp
       split at h
-      · rename_i hb; exact Or.inr ⟨hp, hb⟩
+      · rename_i hb; exact Or.inr (Or.inl ⟨hp, hb⟩)
       · simp at h
+    · rename_i b hp
+      exact Or.inr (Or.inr (Or.inl ⟨b, hp⟩))
+    · rename_i hp
+      exact Or.inr (Or.inr (Or.inr hp))
     · simp at h
   · simp at h
 
 theorem ret_wait_pc {s s' : St} (hr : Reachable s) {t r : Nat} (h : step s (.ret t r) = some s')
     (hw : isWait (s.curOp t) = true) : s.pc t = .retn r := by
-  rcases ret_pc h with h | h
+  have := hr.inv.2.opOk t
+  rcases ret_pc h with h | h | ⟨b, h⟩ | h
   · exact h
-  · have := hr.inv.2.opOk t
-    rw [h.1] at this
+  · rw [h.1] at this
     cases hc : s.curOp t <;> simp [hc, pcOpOk, isNotify, isWait] at this hw
+  · rw [h] at this
+    cases hc : s.curOp t <;> simp [hc, pcOpOk, isWait] at this hw
+  · rw [h] at this
+    cases hc : s.curOp t <;> simp [hc, pcOpOk, isWait] at this hw
 
 /-- **wait returns with the user lock held.**  Whenever a wait operation (any form)
     returns, the returning thread owns the user lock. -/
@@ -445,7 +596,7 @@ theorem C07_wait_pred_returns_true (s s' : St) (hr : Reachable s) (t r : Nat)
     (hc : s.curOp t = .wait false true) (h : step s (.ret t r) = some s') : s.flag = true := by
   have hpc := ret_wait_pc hr h (by simp [hc, isWait])
   have h1 := hr.inv.2.predRes t r hpc (by simp [hc, isPred])
-  have h2 := hr.inv.2.untimedRes t r hpc (by simp [hc, isTimed])
+  have h2 := hr.inv.2.untimedRes t r hpc (by simp [hc, isTimed]) (by simp [hc, isStop])
   rw [hc] at h2
   simp [isPred, b2n] at h2
   cases hf : s.flag with
@@ -492,12 +643,8 @@ theorem counters_step (s s' : St) (e : Ev) (t : Nat) (h : step s e = some s') :
     rw [hp, he]; by_cases hg : t = g <;> simp [enqCount, resumeCount, upd, hg]
     intro h'; exact absurd h'.symm hg
   case popAll u z g d =>
-    simp only [step] at h
-    split at h
-    case isFalse => simp at h
-    split at h
-    case h_2 => simp at h
-    obtain ⟨_, _, _, hp, _, _, he⟩ := popCore_effect s s' u z g d .nAll h
+    obtain ⟨pcT, h⟩ := popAll_core h
+    obtain ⟨_, _, _, hp, _, _, he⟩ := popCore_effect s s' u z g d pcT h
     rw [hp, he]; by_cases hg : t = g <;> simp [enqCount, resumeCount, upd, hg]
     intro h'; exact absurd h'.symm hg
   case cvEnq u z b =>
@@ -560,10 +707,13 @@ theorem C07_resume_targets_linked_waiter (s s' : St) (hr : Reachable s) (u z g :
       split at h
       case isFalse => simp at h
       split at h
-      case h_2 => simp at h
-      rename_i hpc
-      obtain ⟨⟨rest, hq, _⟩, _⟩ := popCore_effect s s' u z g d .nAll h
-      exact ⟨⟨rest, hq⟩, by simp [hpc, inQ]⟩
+      case h_3 => simp at h
+      · rename_i hpc
+        obtain ⟨⟨rest, hq, _⟩, _⟩ := popCore_effect s s' u z g d .nAll h
+        exact ⟨⟨rest, hq⟩, by simp [hpc, inQ]⟩
+      · rename_i k hpc
+        obtain ⟨⟨rest, hq, _⟩, _⟩ := popCore_effect s s' u z g d (.cAll k) h
+        exact ⟨⟨rest, hq⟩, by simp [hpc, inQ]⟩
   obtain ⟨⟨rest, hq⟩, hu⟩ := hq
   have hg : g ∈ s.queue := by rw [hq]; simp
   have hin := (hi.qIff g).1 hg
@@ -584,6 +734,220 @@ theorem C07_one_resume_per_suspend (s : St) (hr : Reachable s) (hu : s.everTimed
   case susp p => cases p <;> simp at h2 ⊢ <;> omega
   case wokeNL tm p => simp [h1]; omega
   case relk tm p => simp [h1]; omega
+
+/-! ## Stop-token wait (follow-up C07s)
+
+`condition_variable_any::wait(lock, stop_token, pred)` (operation `swait false`), its timed
+form `wait_until/wait_for(lock, stop_token, t, pred)` (`swait true`; `isStop` = either) and
+`request_stop` (operation `stop`).  State fields used in the statements: `stopReq` (the stop-requested bit),
+`cbs` (the callback list of the stop state; a callback is named by the waiting thread that
+owns it), `cur` (the callback `request_stop` has dequeued and not yet marked finished), `kept`
+(the thread's `stop_callback` is registered), `stopDone` (the winning `request_stop` has left
+its callback loop), `reqT` (the thread of that call).  Classification of program counters
+(`Lemmas/CV4.lean`): `exposed` = passed the `stop_requested()` re-check under the internal lock
+(S1) and not notified since (pcs `locked`, `released`, `enq`, `unl _ false`, `susp false`);
+`popPending` = inside the stop callback before the end of its `notify_all`. -/
+
+/-- **(a) Result of a stop-token wait.**  Whenever `wait(lock, stop_token, pred)` returns, the
+    value returned is the current value of the predicate, the predicate holds or stop has been
+    requested, and the caller owns the user lock. -/
+theorem C07_stop_wait_result (s s' : St) (hr : Reachable s) (t r : Nat)
+    (hc : s.curOp t = .swait false) (h : step s (.ret t r) = some s') :
+    r = b2n s.flag ∧ (s.flag = true ∨ s.stopReq = true) ∧ s.ulock = some t ∧ s'.ulock = some t := by
+  have hw : isWait (s.curOp t) = true := by simp [hc, isWait]
+  have hpc := ret_wait_pc hr h hw
+  have h1 := hr.inv.2.predRes t r hpc (by simp [hc, isPred])
+  have h2 := hr.inv3.swRes t r hc (by simp [hpc, resAll])
+  have h3 := C07_returns_locked s s' hr t r hw h
+  refine ⟨h1, ?_, h3.1, h3.2⟩
+  rcases h2 with h2 | h2
+  · left
+    cases hf : s.flag with
+    | true => rfl
+    | false => rw [hf] at h1; simp [b2n] at h1; omega
+  · exact Or.inr h2
+
+/-- **(b) No window between the check and the enqueue.**  Once stop has been requested, every
+    thread of a stop-token wait that has passed the re-check of `stop_requested()` under the
+    internal lock and has not been notified since — in particular every such thread that is on
+    its way to, or parked in, `agent.suspend` — still has its callback linked in the stop
+    state, or `request_stop` holds that callback and has not finished its `notify_all` (which
+    by `C07_stop_callback_wakes_all` pops every waiting thread before it ends). -/
+theorem C07_stop_covered (s : St) (hr : Reachable s) (hq : s.stopReq = true) (t : Nat)
+    (hc : isStop (s.curOp t) = true) (he : exposed (s.pc t) = true) :
+    t ∈ s.cbs ∨ (s.cur = some t ∧ popPending (s.pc s.reqT) = true) :=
+  hr.inv3.covered hq t hc he
+
+/-- At the moment `request_stop` sets the stop bit, every stop-token waiter that has passed
+    its re-check finds its callback in the list `request_stop` is about to run: a stop request
+    cannot fall between the waiter's `stop_requested()` check and its enqueue unseen. -/
+theorem C07_stop_request_finds_callbacks (s s' : St) (hr : Reachable s) (u : Nat)
+    (h : step s (.stAcq u 1) = some s') :
+    s'.stopReq = true ∧ ∀ t, isStop (s.curOp t) = true → exposed (s.pc t) = true → t ∈ s.cbs := by
+  have hi3 := hr.inv3
+  have hpre : s.stopReq = false ∧ s'.stopReq = true := by
+    simp only [step] at h
+    split at h
+    case isFalse => simp at h
+    (repeat' split at h) <;> first | (simp at h; done) | skip
+    all_goals (simp only [Option.some.injEq] at h; subst h; simp_all)
+  refine ⟨hpre.2, fun t hc he => ?_⟩
+  have hb : bodyPc (s.pc t) = true := by
+    cases hp : s.pc t <;> simp [hp, exposed] at he <;> simp [bodyPc]
+  -- the callback is registered (else the wait would have seen the stop bit) …
+  have hk : s.kept t = true := by
+    cases hk : s.kept t with
+    | true => rfl
+    | false => have := hi3.unregReq t hc hk (Or.inl hb); rw [hpre.1] at this; simp at this
+  -- … and before the stop bit is set a registered callback is linked
+  rcases hi3.regOk t hk with h1 | h1 | h1
+  · exact h1
+  · have hh := hi3.curConv t h1
+    have := (hi3.reqOk s.reqT (by cases hp : s.pc s.reqT <;> simp [hp, curHeldPc] at hh <;> simp [reqPc, hh])).1
+    rw [hpre.1] at this; simp at this
+  · have := hi3.finReq t hk h1; rw [hpre.1] at this; simp at this
+
+/-- **(b) No lost stop.**  After the winning `request_stop` has run its callbacks (in every
+    state from the end of its callback loop on, in particular after it returned), no thread of
+    a stop-token wait is past its re-check and un-notified: none is parked in, or on its way
+    to, `agent.suspend` without a wake-up. -/
+theorem C07_no_lost_stop (s : St) (hr : Reachable s) (hd : s.stopDone = true) (t : Nat)
+    (hc : isStop (s.curOp t) = true) : exposed (s.pc t) = false ∧ ¬ Parked s t := by
+  have hi3 := hr.inv3
+  obtain ⟨hq, hcb, hcu⟩ := hi3.doneOk hd
+  have he : exposed (s.pc t) = false := by
+    cases he : exposed (s.pc t) with
+    | false => rfl
+    | true =>
+      rcases hi3.covered hq t hc he with h | h
+      · rw [hcb] at h; simp at h
+      · rw [hcu] at h; simp at h
+  exact ⟨he, fun hp => by rw [hp.1] at he; simp [exposed] at he⟩
+
+/-- **(b) No lost stop, trace form.**  Take the event with which `request_stop` sets the stop
+    bit, any stop-token waiter `w` that at that moment has passed its re-check and has not been
+    notified (it is parked in, or on its way to, `agent.suspend`), and any continuation of the
+    execution up to a state in which that `request_stop` has left its callback loop: the
+    continuation contains an event that pops and resumes `w` (`cv.pop`/`cv.popall` + resume) or
+    an agent wake-up of `w`. -/
+theorem C07_stop_wakes_each (s s1 s2 : St) (hr : Reachable s) (u w : Nat) (log : List Ev)
+    (h1 : step s (.stAcq u 1) = some s1) (hc : s.curOp w = .swait false) (he : exposed (s.pc w) = true)
+    (h2 : runLog step s1 log = some s2) (hd : s2.stopDone = true) :
+    ∃ e ∈ log, (∃ x z d, e = .popAll x z w d) ∨ (∃ x z d, e = .popResume x z w d) ∨ e = .woke w := by
+  have hr1 : Reachable s1 := hr.step h1
+  have hs1 : s1.curOp w = .swait false ∧ exposed (s1.pc w) = true := by
+    rcases exposed_step s s1 hr.inv.2 _ w hc he h1 with ⟨x, z, d, h⟩ | ⟨x, z, d, h⟩ | h | h
+    · simp at h
+    · simp at h
+    · simp at h
+    · exact h
+  have main : ∀ (log : List Ev) (sa : St), Reachable sa →
+      sa.curOp w = .swait false ∧ exposed (sa.pc w) = true → runLog step sa log = some s2 →
+      ∃ e ∈ log, (∃ x z d, e = .popAll x z w d) ∨ (∃ x z d, e = .popResume x z w d) ∨ e = .woke w := by
+    intro log
+    induction log with
+    | nil =>
+      intro sa hra hsa hrun
+      simp at hrun
+      subst hrun
+      have := (C07_no_lost_stop sa hra hd w (by simp [hsa.1, isStop])).1
+      rw [hsa.2] at this
+      simp at this
+    | cons e es ih =>
+      intro sa hra hsa hrun
+      simp only [runLog] at hrun
+      cases hs : step sa e with
+      | none => simp [hs] at hrun
+      | some sb =>
+        simp only [hs] at hrun
+        rcases exposed_step sa sb hra.inv.2 e w hsa.1 hsa.2 hs with h | h | h | h
+        · exact ⟨e, by simp, Or.inl h⟩
+        · exact ⟨e, by simp, Or.inr (Or.inl h)⟩
+        · exact ⟨e, by simp, Or.inr (Or.inr h)⟩
+        · obtain ⟨e', hm, hp⟩ := ih sb (hra.step hs) h hrun
+          exact ⟨e', by simp [hm], hp⟩
+  exact main log s1 hr1 hs1 h2
+
+/-- **(b) A stop-token wait returns once stop is requested (progress form).**  In a reachable
+    stuck state in which stop has been requested, the winning `request_stop` has completed, and
+    no thread is blocked in a stop-token wait: every such thread is between operations,
+    finished, or (user error) queueing for the user lock that an idle thread keeps. -/
+theorem C07_stop_wait_returns (s : St) (hr : Reachable s) (hs : Stuck s) (hq : s.stopReq = true) :
+    s.stopDone = true ∧
+    ∀ t, t < s.n → isStop (s.curOp t) = true → s.pc t = .idle ∨ s.pc t = .fin ∨ BlockedOnUserLock s t := by
+  have hi3 := hr.inv3
+  have hd : s.stopDone = true := by
+    cases hd : s.stopDone with
+    | true => rfl
+    | false =>
+      exfalso
+      have ha := hi3.activeOk hq hd
+      have hrn : s.reqT < s.n := by
+        apply Classical.byContradiction
+        intro hge
+        have := hr.inv.1.outside s.reqT (by omega)
+        rw [this] at ha; simp [reqPc] at ha
+      rcases C07_stuck_only_when_blocked s hr hs s.reqT hrn with h | h | h | h
+      · rw [h] at ha; simp [reqPc] at ha
+      · rw [h] at ha; simp [reqPc] at ha
+      · rw [h.1] at ha; simp [reqPc] at ha
+      · rcases h.1 with h | ⟨b, h⟩ <;> (rw [h] at ha; simp [reqPc] at ha)
+  refine ⟨hd, fun t htn hc => ?_⟩
+  rcases C07_stuck_only_when_blocked s hr hs t htn with h | h | h | h
+  · exact Or.inl h
+  · exact Or.inr (Or.inl h)
+  · exact absurd h (C07_no_lost_stop s hr hd t hc).2
+  · exact Or.inr (Or.inr h)
+
+/-- **(c) The callback is deregistered before wait returns.**  When a stop-token wait
+    returns, its stop callback is neither linked in the stop state nor in the hands of
+    `request_stop`, and the `stop_callback` object has given up its stop state. -/
+theorem C07_stop_callback_deregistered (s s' : St) (hr : Reachable s) (t r : Nat)
+    (hc : isStop (s.curOp t) = true) (h : step s (.ret t r) = some s') :
+    s.kept t = false ∧ t ∉ s.cbs ∧ s.cur ≠ some t := by
+  have hpc := ret_wait_pc hr h (by cases hc' : s.curOp t <;> simp [hc', isStop] at hc <;> simp [isWait])
+  have hi3 := hr.inv3
+  have hk : s.kept t = false := by
+    cases hk : s.kept t with
+    | false => rfl
+    | true =>
+      have := (hi3.keptOk t hk).2
+      rw [hpc] at this
+      simp [bodyPc, dtorPc] at this
+  refine ⟨hk, fun hm => ?_, fun hm => ?_⟩
+  · have := (hi3.cbsOk t hm).1; rw [hk] at this; simp at this
+  · have := (hi3.curOk t hm).1; rw [hk] at this; simp at this
+
+/-- **(c) No dangling callback.**  As long as a callback is linked in the stop state or in the
+    hands of `request_stop`, the thread that owns it is inside its stop-token wait (in the
+    loop or in `~stop_callback`), so the locals the callback captured by reference are alive,
+    and its finished flag is not yet set. -/
+theorem C07_stop_callback_owner_inside_wait (s : St) (hr : Reachable s) (c : Nat)
+    (h : c ∈ s.cbs ∨ s.cur = some c) :
+    isStop (s.curOp c) = true ∧ (bodyPc (s.pc c) = true ∨ dtorPc (s.pc c) = true) ∧ s.cbFin c = false := by
+  have hi3 := hr.inv3
+  rcases h with h | h
+  · obtain ⟨hk, hf⟩ := hi3.cbsOk c h
+    exact ⟨(hi3.keptOk c hk).1, (hi3.keptOk c hk).2, hf⟩
+  · obtain ⟨hk, _, hf⟩ := hi3.curOk c h
+    exact ⟨(hi3.keptOk c hk).1, (hi3.keptOk c hk).2, hf⟩
+
+/-- **(c) `~stop_callback` waits for a running callback.**  The destructor's wait for
+    `callback_finished_executing_` ends only when `request_stop` has let go of the callback. -/
+theorem C07_stop_dtor_waits (s s' : St) (hr : Reachable s) (t : Nat)
+    (h : step s (.stWaited t) = some s') : s.cur ≠ some t ∧ t ∉ s.cbs ∧ s'.kept t = false := by
+  have hi3 := hr.inv3
+  simp only [step] at h
+  split at h
+  case isFalse => simp at h
+  rename_i hg
+  split at h
+  case h_2 => simp at h
+  simp only [Option.some.injEq] at h
+  subst h
+  refine ⟨fun hm => ?_, fun hm => ?_, by simp [upd]⟩
+  · have := (hi3.curOk t hm).2.2; rw [hg.2] at this; simp at this
+  · have := (hi3.cbsOk t hm).2; rw [hg.2] at this; simp at this
 
 /-! ## Non-vacuity: concrete accepted logs reaching the interesting states -/
 
@@ -624,5 +988,58 @@ example : (runLog step (init 1 false)
 /-- notify_one on an empty queue reports "none" -/
 example : (runLog step (init 1 false)
     [.inv 0 (.notify false), .slAcq 0, .cvNone 0, .slRel 0, .ret 0 0]).isSome = true := by decide
+
+/-- stop-token wait: thread 0 parks; thread 1 requests stop, its callback pops 0; thread 0
+    wakes, sees the stop bit under the internal lock, runs `~stop_callback` while thread 1 has
+    not yet stored the finished flag (waits for it), returns false; `request_stop` returns true -/
+def stopLog : List Ev :=
+  [.inv 0 .lock, .ulAcq 0, .inv 0 (.swait false), .stop0 0 false, .stAcq 0 2, .stPush 0 false, .pred 0 false,
+   .slAcq 0, .stop1 0 false, .ulRel 0, .cvEnq 0 1 false, .slRel 0, .suspend 0,
+   .inv 1 .stop, .stAcq 1 1, .stDeq 1 0 false, .slAcq 1, .cvAll 1 1, .popAll 1 0 0 false, .slRel 1,
+   .woke 0, .slAcq 0, .cvWoke 0 false false, .slRel 0, .ulAcq 0, .pred 0 false, .slAcq 0, .stop1 0 true,
+   .slRel 0, .stAcq 0 0, .stUnlink 0 false, .stSelf 0 false,
+   .stFin 1 0 false, .stWaited 0, .ret 0 0, .stAcq 1 0, .stRsDone 1, .ret 1 1]
+
+example : (runLog step (init 2 false) stopLog).isSome = true := by decide
+
+/-- the stop request falls between the waiter's re-check (S1) and its enqueue: the callback
+    queues for the internal lock, finds the waiter enqueued and pops it before it suspends -/
+example : (runLog step (init 2 false)
+    [.inv 0 .lock, .ulAcq 0, .inv 0 (.swait false), .stop0 0 false, .stAcq 0 2, .stPush 0 false, .pred 0 false,
+     .slAcq 0, .stop1 0 false,
+     .inv 1 .stop, .stAcq 1 1, .stDeq 1 0 false,
+     .ulRel 0, .cvEnq 0 1 false, .slRel 0,
+     .slAcq 1, .cvAll 1 1, .popAll 1 0 0 false, .slRel 1, .stFin 1 0 false, .stAcq 1 0, .stRsDone 1, .ret 1 1,
+     .suspend 0, .woke 0, .slAcq 0, .cvWoke 0 false false, .slRel 0, .ulAcq 0, .pred 0 false, .slAcq 0,
+     .stop1 0 true, .slRel 0, .stAcq 0 0, .stUnlink 0 false, .stSelf 0 false, .stWaited 0, .ret 0 0]).isSome = true := by
+  decide
+
+/-- stop requested before the wait: S0 sees it, no callback, the predicate's value is returned;
+    stop requested during the registration: the callback runs on the registering thread -/
+example : (runLog step (init 2 false)
+    [.inv 1 .stop, .stAcq 1 1, .stRsDone 1, .ret 1 1,
+     .inv 0 .lock, .ulAcq 0, .inv 0 (.swait false), .stop0 0 true, .pred 0 false, .ret 0 0]).isSome = true := by decide
+
+example : (runLog step (init 2 false)
+    [.inv 0 .lock, .ulAcq 0, .inv 0 (.swait false), .stop0 0 false,
+     .inv 1 .stop, .stAcq 1 1, .stRsDone 1, .ret 1 1,
+     .stSeen 0, .slAcq 0, .cvAll 0 0, .slRel 0, .stInFin 0, .pred 0 false, .slAcq 0, .stop1 0 true, .slRel 0,
+     .ret 0 0]).isSome = true := by decide
+
+/-- timed stop-token wait: enqueued with a deadline, the stop callback marks it signalled (the
+    resume is dropped by the deadline poller), it wakes at the deadline, `should_stop` is true
+    (stop requested), the predicate's value is returned after `~stop_callback` -/
+example : (runLog step (init 2 false)
+    [.inv 0 .lock, .ulAcq 0, .inv 0 (.swait true), .stop0 0 false, .stAcq 0 2, .stPush 0 false, .pred 0 false,
+     .slAcq 0, .stop1 0 false, .ulRel 0, .cvEnq 0 1 true, .slRel 0, .sleep 0,
+     .inv 1 .stop, .stAcq 1 1, .stDeq 1 0 false, .slAcq 1, .cvAll 1 1, .popAll 1 0 0 true, .slRel 1,
+     .stFin 1 0 false, .stAcq 1 0, .stRsDone 1, .ret 1 1,
+     .timeout 0, .slAcq 0, .cvWoke 0 false true, .stop2 0 true, .slRel 0, .ulAcq 0, .pred 0 false,
+     .stAcq 0 0, .stUnlink 0 false, .stSelf 0 false, .stWaited 0, .ret 0 0]).isSome = true := by decide
+
+/-- predicate satisfied without a stop request: the waiter unlinks its callback itself -/
+example : (runLog step (init 1 true)
+    [.inv 0 .lock, .ulAcq 0, .inv 0 (.swait false), .stop0 0 false, .stAcq 0 2, .stPush 0 false, .pred 0 true,
+     .stAcq 0 0, .stUnlink 0 true, .ret 0 1]).isSome = true := by decide
 
 end PikaVerif.C07
